@@ -85,7 +85,11 @@ class PathCtx(object):
         self.twin_needed = twin_needed  # set of labels still lacking a sat twin, or None=all
         self.defs = 0
         self.decided = {}
+        self.deferred = {}
+        self.facts = {}
+        self._const_cache = {}
         self._keep = []        # keeps decided ASTs alive so that ids are not reused
+        self.witness_incomplete = False
         self.uf_used = False   # an uninterpreted function (log/exp) occurs: numeric witness values are not comparable
 
     # ---------------------------------------------------------------- names
@@ -122,16 +126,78 @@ class PathCtx(object):
         if invalidate:
             self.model = None
 
-    def define(self, cond):
-        """A definitional axiom for a fresh symbol (total, conservative)."""
+    def define(self, cond, symbol=None):
+        """A definitional axiom for a fresh symbol (total, conservative).
+
+        With `symbol` given the axiom is *deferred*: it is a conservative
+        extension (for every value of the other variables some value of the
+        symbol satisfies it), so queries that do not mention the symbol are
+        equisatisfiable without it.  It is activated as soon as a branch
+        condition, an assumption or an obligation mentions the symbol -- this
+        keeps feasibility checks linear on paths that merely compute a sqrt."""
         self.defs += 1
-        self.add(cond)
+        if symbol is None:
+            self.add(cond)
+            return
+        self.deferred[symbol.get_id()] = (symbol, cond)
+
+    def _consts(self, expr):
+        """ids of the uninterpreted constants occurring in expr (memoised)."""
+        key = expr.get_id()
+        got = self._const_cache.get(key)
+        if got is not None:
+            return got
+        out = set()
+        seen = set()
+        stack = [expr]
+        while stack:
+            e = stack.pop()
+            i = e.get_id()
+            if i in seen:
+                continue
+            seen.add(i)
+            sub = self._const_cache.get(i)
+            if sub is not None:
+                out |= sub
+                continue
+            if z3.is_app(e):
+                if e.num_args() == 0:
+                    if e.decl().kind() == z3.Z3_OP_UNINTERPRETED:
+                        out.add(i)
+                else:
+                    stack.extend(e.children())
+        self._const_cache[key] = out
+        self._keep.append(expr)
+        return out
+
+    def activate_for(self, expr):
+        """Add the deferred definitions of every symbol expr depends on."""
+        if not self.deferred or isinstance(expr, bool):
+            return
+        todo = [expr]
+        while todo:
+            e = todo.pop()
+            for cid in self._consts(e):
+                d = self.deferred.pop(cid, None)
+                if d is not None:
+                    self.solver.add(d[1])
+                    self.pc.append(d[1])
+                    self.model = None
+                    todo.append(d[1])
+
+    def activate_all(self):
+        for cid in list(self.deferred):
+            sym, cond = self.deferred.pop(cid)
+            self.solver.add(cond)
+            self.pc.append(cond)
+            self.model = None
 
     def assume(self, cond):
         if cond is True:
             return
         if cond is False:
             raise Infeasible()
+        self.activate_for(cond)
         self.add(cond)
 
     # --------------------------------------------------------------- branch
@@ -152,17 +218,40 @@ class PathCtx(object):
         r = self._branch(cond)
         self.decided[key] = (r != neg)
         self._keep.append(base)
+        self._learn(base, r != neg)
         return r
 
+    def _learn(self, e, val):
+        """Record the literal facts a decision implies (used to simplify the
+        arguments of sqrt/cbrt symbols so that equal arguments share a symbol)."""
+        k = e.get_id()
+        if k in self.facts:
+            return
+        self.facts[k] = (e, val)
+        if z3.is_not(e):
+            self._learn(e.arg(0), not val)
+        elif z3.is_and(e) and val:
+            for c in e.children():
+                self._learn(c, True)
+        elif z3.is_or(e) and not val:
+            for c in e.children():
+                self._learn(c, False)
+
+    def simplify_under_facts(self, expr):
+        if not self.facts:
+            return z3.simplify(expr)
+        subs = [(e, z3.BoolVal(v)) for (e, v) in self.facts.values()]
+        return z3.simplify(z3.substitute(expr, *subs))
+
     def _branch(self, cond):
+        self.activate_for(cond)
         if self.pos < len(self.prefix):
             d = self.prefix[self.pos]
             self.pos += 1
             self.solver.add(cond if d else z3.Not(cond))
             self.pc.append(cond if d else z3.Not(cond))
             self.decisions.append(d)
-            if self.pos == len(self.prefix):
-                self.model = None
+            self.model = None      # a model computed mid-prefix is stale now
             return d
         model = self._ensure_model()
         v = model.eval(cond, model_completion=True)
@@ -242,6 +331,9 @@ class PathCtx(object):
             status = "sat"
             model = self.model_values(self.model)
         else:
+            self.activate_for(prop)
+            if twin is not None and twin is not True and twin is not False:
+                self.activate_for(twin)
             self.solver.push()
             self.solver.add(z3.Not(prop))
             r = self._check()
@@ -272,6 +364,21 @@ class PathCtx(object):
         return ob
 
     def final_model(self):
+        """Model of the whole path including every deferred definition (needed
+        to evaluate observations); falls back to the model without them."""
+        if self.deferred:
+            self.solver.push()
+            for cid in list(self.deferred):
+                self.solver.add(self.deferred[cid][1])
+            r = self._check()
+            if r == z3.sat:
+                self.model = self.solver.model()
+                vals = self.model_values(self.model)
+                self.solver.pop()
+                return vals
+            self.solver.pop()
+            self.model = None
+            self.witness_incomplete = True
         self._ensure_model()
         return self.model_values(self.model)
 
